@@ -1,8 +1,9 @@
 """C05 - fields libtins derives are correct on the wire (kernels: one's-complement sums, pseudo-headers, CRC-32)."""
+import os
 from driver import Unit, Inst
 EXPLANATION = ('Checksum kernels of src/utils/checksum_utils.cpp executed on symbolic buffers of each length and compared with references written from RFC 1071 / IEEE 802.3 as a receiver '
                'computes them (big-endian words with end-around carry; bit-serial reflected CRC-32): sum_range, do_checksum, both pseudoheader_checksum overloads, crc32.')
-BOUNDS = {'quick': 'sum_range: every length 0..16 incl. odd; crc32: lengths 0..4; IPv4 pseudo-header: all addresses/lengths/protocols (the IPv6 one, an 18-word sum equivalence, is in the thorough tier with kissat)', 'thorough': 'sum_range 0..32, crc32 0..8'}
+BOUNDS = {'quick': 'sum_range: every length 0..16 incl. odd; crc32: lengths 0..4; IPv4 pseudo-header: all addresses/lengths/protocols (the IPv6 one, an 18-word sum equivalence, got no verdict from kissat in 1800 s and is not claimed)', 'thorough': 'sum_range 0..32, crc32 0..8'}
 OUTSIDE = ('the per-layer serializers that call these kernels (checksum patch-back, length/offset/next-protocol fields, Ethernet padding) and libpcap filter agreement: not yet encoded; '
            'sums over more than the stated number of bytes (the accumulator is 32-bit: > 64 KiB of 0xffff words could overflow - argued, not checked)')
 ASSUMPTIONS = []
@@ -13,5 +14,6 @@ def instances(tier):
     out = [Inst('c05k', 'h_c05_sum_range', params=(n,), unwind=n + 3, timeout=(120 if q else 900), mem_gb=6, flags=['--sat-solver', 'cadical']) for n in range(0, 17 if q else 33)]
     out += [Inst('c05k', 'h_c05_crc32', params=(n,), unwind=12, unwindset={'vp_buf.0': n + 2}, timeout=(120 if q else 900), mem_gb=6, flags=['--sat-solver', 'cadical']) for n in range(0, 5 if q else 9)]
     out += [Inst('c05k', 'h_c05_pseudo_v4', unwind=16, timeout=300, mem_gb=6, flags=['--sat-solver', 'cadical'])]
-    if not q: out += [Inst('c05k', 'h_c05_pseudo_v6', unwind=40, timeout=1800, mem_gb=8, flags=['--external-sat-solver', 'kissat'])]
+    # the IPv6 pseudo-header (an 18-word ones'-complement sum equivalence) was tried with kissat: no verdict in 1800 s, so it is not part of either tier
+    if os.environ.get('C05_PSEUDO_V6'): out += [Inst('c05k', 'h_c05_pseudo_v6', unwind=40, timeout=1800, mem_gb=8, flags=['--external-sat-solver', 'kissat'])]
     return out
